@@ -4,6 +4,7 @@ From Dht Require Bep44 RunBep44.
 From Dht Require Import Crc32c Security RunSecurity.
 From Dht Require Import Traversal RunTraversal.
 From Dht Require Import Compact Bencode Krpc RunCodec.
+From Dht Require Query Lookups RunLookups.
 Require Import ExtrOcamlBasic.
 Extraction Language OCaml.
 Extraction "model.ml"
@@ -22,4 +23,7 @@ Extraction "model.ml"
   decode_xmsg decode_msg encode_xmsg encode_msg x_of_msg decode_msg_fixed decode_msg_pinned wf_xmsgb
   id_unmarshal id_marshal_benc nodeaddr_unmarshal_benc nodeaddr_marshal_benc error_unmarshal error_marshal_benc
   compact_marshal_benc
-  rc_ni rc_infos4_dec rc_infos6_dec rc_gen rc_msg rc_addrs4_unb rc_addrs6_unb rc_infos4_unb rc_infos6_unb rc_hashes_unb rc_any_of_bytes.
+  rc_ni rc_infos4_dec rc_infos6_dec rc_gen rc_msg rc_addrs4_unb rc_addrs6_unb rc_infos4_unb rc_infos6_unb rc_hashes_unb rc_any_of_bytes
+  RunLookups.rq_outcomes RunLookups.rq_accepts RunLookups.rq_mk_scn
+  RunLookups.rl_init RunLookups.rl_event RunLookups.rl_finish RunLookups.rl_mk_cfg RunLookups.rl_mk_reply
+  RunLookups.rl_view_sends RunLookups.rl_view_peers RunLookups.rl_view_result RunLookups.rl_view_flags RunLookups.rl_view_nq RunLookups.rl_cfg_api.
